@@ -42,6 +42,15 @@ class Layout(Exception):
     pass
 
 
+def sf(x):
+    """float for messages only; values outside the double range are shown by their order of magnitude"""
+    try:
+        return float(x)
+    except (OverflowError, ZeroDivisionError):
+        import math
+        x = Fr(x); sgn = "-" if x < 0 else ""; x = abs(x)
+        return "%s~2^%d" % (sgn, x.numerator.bit_length() - x.denominator.bit_length())
+
 def tokenise(fmt, is_count, text):
     """-> ('count', [a, b, c]) or ('roots', [ {fields: [str..], sep: '+'|'-'|None, num: int|None, zero_mark: bool} ])"""
     lines = text.split("\n")
@@ -407,7 +416,7 @@ def run(ctx):
                 stats["flagged-0:stored-within-radius" if within_rad else "flagged-0:stored-beyond-radius"] += 1
                 def h(ans, c=c, x=x, within_rad=within_rad):
                     if ans != "T" and not within_rad:
-                        ctx.violation("close:%s:flagged-component-printed-0" % FMTNAME[c.fmt], "a component flagged real/imaginary is printed as 0 but the stored value is %s, beyond one unit and beyond the radius (%s)" % (float(x), c.name), replay_of(c))
+                        ctx.violation("close:%s:flagged-component-printed-0" % FMTNAME[c.fmt], "a component flagged real/imaginary is printed as 0 but the stored value is %s, beyond one unit and beyond the radius (%s)" % (sf(x), c.name), replay_of(c))
                 round2.append(("CLOSE\t0\t%s" % qs(x), h))
             return
         if kd == "R":
@@ -425,9 +434,9 @@ def run(ctx):
                     near_ = rad > 0 and v < rad and (rad - v) <= rad * Fr(max(100, e10), 10 ** 14)
                 if ans != "T" and near_:
                     ctx.violation("radius:rdpe_out_str-log10-pow-inexact", "radius of root %d printed as %s, stored %s: smaller by more than 1e-13 relative (by %.3g), within the error of rdpe_get_dl's log10/pow at this exponent; %s format, %s"
-                                  % (idx, tok, float(rad) if rad < 10 ** 300 else rad, float((rad - v) / rad), FMTNAME[c.fmt], c.name), replay_of(c, {"root": idx, "token": tok}))
+                                  % (idx, tok, sf(rad), sf((rad - v) / rad), FMTNAME[c.fmt], c.name), replay_of(c, {"root": idx, "token": tok}))
                 elif ans != "T":
-                    ctx.violation("radius:%s:printed-smaller" % FMTNAME[c.fmt], "radius of root %d printed as %s, stored %s: smaller beyond print rounding (1e-13 relative) in %s" % (idx, tok, float(rad) if rad < 10 ** 300 else rad, c.name), replay_of(c, {"root": idx, "token": tok}))
+                    ctx.violation("radius:%s:printed-smaller" % FMTNAME[c.fmt], "radius of root %d printed as %s, stored %s: smaller beyond print rounding (1e-13 relative) in %s" % (idx, tok, sf(rad), c.name), replay_of(c, {"root": idx, "token": tok}))
                 else:
                     nontrivial.add((c.name, c.fmt, idx, "rad", tok))
             round2.append(("RADGE\t%s\t%s\t%d\t%d" % (tok, qs(rad), RADSLACK[0], RADSLACK[1]), h))
@@ -439,7 +448,7 @@ def run(ctx):
         if unsigned:
             want = "-" if x < 0 else "+"
             if t["sep"] != want or tok.startswith("-"):
-                ctx.violation("sign:verbose:imaginary-part", "verbose format: imaginary part %s printed as %r after separator %r (%s)" % (float(x), tok, t["sep"], c.name), replay_of(c, {"root": idx}))
+                ctx.violation("sign:verbose:imaginary-part", "verbose format: imaginary part %s printed as %r after separator %r (%s)" % (sf(x), tok, t["sep"], c.name), replay_of(c, {"root": idx}))
             xs = abs(x)
         else:
             xs = x
